@@ -754,7 +754,6 @@ func g32ReserveDeclared(c *Ctx) {
 		Msg: "newPackage reserves only the identifiers the user calls: a function the package declares but only uses as a value (var cmp = deriveEqual_), or any other package-level name, can be handed out as a fresh helper name — goderive exits 0 and the package has two declarations of that name"})
 }
 
-
 // reservedSetArg: the set of reserved names handed to newTypesMap by this call — the argument for the parameter called reserved,
 // or, when the options travel in a struct, the map[string]struct{} value in the composite literal that is passed (directly, or
 // through a local with that literal as its one definition).
